@@ -214,7 +214,7 @@ def main(argv):
     # keep a thorough run inside a stated CPU envelope: nominal budgets are
     # scaled down proportionally when their sum exceeds the cap (shards that
     # finish early free their cores; a shard cut short is INCONCLUSIVE)
-    cap = float(os.environ.get("VERIF_CPU_CAP", "0") or 0) or (43200.0 if tier == "thorough" else 0.0)
+    cap = float(os.environ.get("VERIF_CPU_CAP", "0") or 0) or (21600.0 if tier == "thorough" else 0.0)
     total = sum(t["budget"] for t in tasks if not t["twin"])
     scale = 1.0
     if cap and total > cap:
